@@ -417,6 +417,7 @@ class FitBase(FileIOMixin, object):
     def _on_error_change(self):
         """Mark all error nodes in :py:attr:`~_BASIC_ERROR_NAMES` for updates in the nexus."""
         self._fitter.reset_minimizer()
+        self._loaded_result_dict = None  # results loaded from a file (or a multifit) belong to the old errors
         for _error_name in self._BASIC_ERROR_NAMES:
             self._nexus.get(_error_name).mark_for_update()
         if self._cost_function_pointwise is not None and not self._implicit_no_errors:
@@ -792,6 +793,7 @@ class FitBase(FileIOMixin, object):
         :param param_name_value_dict: new parameter values
         """
         _return_value = self._fitter.set_fit_parameter_values(**param_name_value_dict)
+        self._loaded_result_dict = None  # results loaded from a file (or a multifit) belong to the old parameter values
         if self._param_model is not None:
             self._param_model.parameters = self.parameter_values
         for _par_name, _par_val in param_name_value_dict.items():
@@ -805,6 +807,7 @@ class FitBase(FileIOMixin, object):
 
         :param typing.Iterable[float] param_value_list: List of parameter values (mind the order).
         """
+        self._loaded_result_dict = None  # results loaded from a file (or a multifit) belong to the old parameter values
         if self._param_model is not None:
             self._param_model.parameters = param_value_list
         for _par_name, _par_val in zip(self.parameter_names, param_value_list):
